@@ -54,9 +54,8 @@ combinations, large values, second-and-later calls, error paths); its first-atte
 harness as committed at 3057367, before any extension.  A second batch of round 8 (one change for each of C01 C03 C05 C09
 C11 C13 C15 C17; ids `…n`) repeated the round-7 brief (aim at what exhaustive small cases with boundary values MISS: a
 particular length, a large-but-not-boundary value, a specific combination, a rarely used entry point): 4 of 8 at the first
-attempt (C03n, C05n, C13n, C17n), 3 after general extensions (C01n, C09n, C11n), and **one valid change that no check
-catches, C15n** (a lookup memo keyed by chunk offset alone: it needs two chunks of one track stored at the same file offset
-and a previous lookup 8 samples deep — no C15 family has aliased chunk offsets; see its entry below and §5).  Each change was **re-confirmed by `bin/try_seeded.sh`** in a fresh scratch worktree (demo
+attempt (C03n, C05n, C13n, C17n), 4 after general extensions (C01n, C09n, C11n, and C15n at the second try: a lookup memo keyed by chunk offset alone, which
+needs two chunks of one track at the same file offset and an earlier lookup 8 samples deep).  Each change was **re-confirmed by `bin/try_seeded.sh`** in a fresh scratch worktree (demo
 passes without the patch, fails with it; the existing suite passes with it: 65 = 59 + 4 + 2 tests), stored as
 `seeded/<id>/{{patch.diff, demo.rs, notes.md, meta.json}}`, applied to /repo (`git apply`), run against the
 quick tier of the relevant checks, and undone (`git checkout -- .`).  None is committed in /repo.  (Round 1
@@ -69,8 +68,8 @@ kept as `patch.orig.diff`.)
 
 **{caught_final} of {final['total']} are caught by the quick tier of the check of their own property**
 (several also by a neighbouring check); `seeded/FINAL_RERUN.json` is the record of the last complete re-run
-of all of them against the harness and the /repo tree as committed (`bin/rerun_seeded.sh`).  Of those that are
-not, C15n is a valid change that is missed (above); the others ({', '.join(obsolete)}) are not (or no longer) valid defects with respect to any property (stopped being reachable or applicable
+of all of them against the harness and the /repo tree as committed (`bin/rerun_seeded.sh`).  Those that are
+not ({', '.join(obsolete)}) are not (or no longer) valid defects with respect to any property (stopped being reachable or applicable
 after a repair of the pinned tree, or changes a value that is not representable): see their entries below.  First-attempt detection per round
 (by the check of their own property, before any strengthening): ''' + ', '.join(f"round {r}: {v[1]} of {v[0]}" for r, v in sorted(per_round.items())) + f''' — {first} of {total} in all.  Rounds 3 to 8 were briefed to
 produce exactly what the machinery of the earlier rounds would plausibly miss, so their lower rate is the
